@@ -1,0 +1,46 @@
+//! Verification-only hooks. Compiled only with `--cfg astrolabe_verif`; not part of the public API.
+#![allow(missing_docs)]
+
+use crate::{local::timezone::TimeZone, DateTime};
+use std::{cell::RefCell, path::PathBuf};
+
+thread_local! {
+    static PINNED_NOW: RefCell<Option<DateTime>> = const { RefCell::new(None) };
+    static LOCALTIME_PATH: RefCell<Option<PathBuf>> = const { RefCell::new(None) };
+}
+
+/// Pins (`Some`) or releases (`None`) the clock returned by `DateTime::now()` on this thread.
+pub fn pin_now(now: Option<DateTime>) {
+    PINNED_NOW.with(|cell| *cell.borrow_mut() = now);
+}
+
+pub(crate) fn pinned_now() -> Option<DateTime> {
+    PINNED_NOW.with(|cell| *cell.borrow())
+}
+
+/// Makes `Offset::Local` read the given file instead of `/etc/localtime` on this thread.
+pub fn set_localtime_path(path: Option<PathBuf>) {
+    LOCALTIME_PATH.with(|cell| *cell.borrow_mut() = path);
+}
+
+pub(crate) fn localtime_override() -> Option<PathBuf> {
+    LOCALTIME_PATH.with(|cell| cell.borrow().clone())
+}
+
+/// A parsed TZif file, exposing the crate-private timezone reader.
+#[derive(Debug)]
+pub struct VerifTz(TimeZone);
+
+impl VerifTz {
+    /// Parses caller supplied TZif bytes.
+    pub fn parse(bytes: &[u8]) -> Result<Self, String> {
+        TimeZone::from_tzif(bytes)
+            .map(Self)
+            .map_err(|e| e.to_string())
+    }
+
+    /// Resolves the UTC offset in seconds for a unix timestamp.
+    pub fn offset(&self, timestamp: i64) -> i32 {
+        self.0.to_local_time_type(timestamp).utoff
+    }
+}
